@@ -10,8 +10,30 @@ PAR = int(os.environ.get("EVAL_PAR", "3"))       # seeds evaluated concurrently 
 WORKERS = os.environ.get("EVAL_WORKERS", "6")   # symgo workers per seed
 extra = {"C08": ["C03"], "C14": ["C03"], "C15": ["C03"], "C10": ["C03"], "C09": ["C03"], "C16": ["C06", "C18"], "C01": ["C09", "C03", "C07"], "C02": []}
 
+# A hint names the harness that reported the seed in an earlier evaluation (or that the seed's author names):
+# that harness is run first, alone; a VIOLATION there is a VIOLATION of the whole check (which runs every
+# harness). Only when the targeted run reports nothing is the whole quick check of the property run.
+try:
+    HINTS = json.load(open(os.path.join(V, "tools", "seed_hints.json")))
+except Exception:
+    HINTS = {}
+try:
+    DONE = {e["seed"]: e for e in json.load(open(os.path.join(V, "seeded", "RESULTS.json")))} if os.environ.get("EVAL_RESUME") else {}
+except Exception:
+    DONE = {}
+
+def run_one(name, p, extra_args):
+    t0 = time.time()
+    out = subprocess.run([os.path.join(V, "tools", "run_seed.sh"), name, p, "-workers", WORKERS] + extra_args, capture_output=True, text=True, env=dict(os.environ, TAILN="400")).stdout
+    viol = re.findall(r"^  harness=(\S+) assert=(\S+)", out, re.M)
+    return {"check": p, "wall_s": round(time.time() - t0), "detected": "VIOLATION property=" in out,
+            "by": sorted(set(f"{h}:{a}" for h, a in viol))[:6], "inconclusive": "inconclusive=true" in out,
+            "applies": "PATCH-DOES-NOT-APPLY" not in out, **({"targeted": extra_args[1]} if extra_args else {})}
+
 def evaluate(d):
     name = os.path.basename(d)
+    if name in DONE:
+        return DONE[name]
     meta = json.load(open(os.path.join(d, "meta.json")))
     prop = meta["breaks_property"]
     entry = {"seed": name, "breaks": prop, "runs": []}
@@ -19,6 +41,15 @@ def evaluate(d):
         entry["obsolete"] = meta["obsolete_on_repaired_tree"]
         entry["detected"] = False
         return entry
+    hint = HINTS.get(name)
+    if hint:
+        hp = "C" + hint[1:3]
+        if claims.get(hp, {}).get("claimed"):
+            r = run_one(name, hp, ["-harness", hint])
+            entry["runs"].append(r)
+            if r["detected"]:
+                entry["detected"] = True
+                return entry
     # a change may be visible to the checks of related properties too (VM group)
     for p in [prop] + extra.get(prop, []):
         if not claims.get(p, {}).get("claimed"): continue
